@@ -490,4 +490,16 @@ theorem sample_gap (s : Rat) (hs : 0 < s) : 0 < (s.ceil : Rat) ∧ s / (s.ceil :
   have e2 : (s.ceil : Rat) * ((s.ceil : Rat))⁻¹ = 1 := Rat.mul_inv_cancel _ hne
   rw [e1]; rw [e2] at h3; exact h3
 
+/-! ### non-vacuity -/
+
+/-- a tile spanning longitudes 1 … 3/2 against a box at 5 … 6 (the same longitudes as −1.28 … −0.28): no overlap;
+against a box at 7 … 8 (= 0.72 … 1.72): overlap — with τ = 6283185307/10⁹ -/
+example : intersects (6283185307 / 1000000000) (3141592653 / 1000000000) (15707963 / 10000000) 20
+      ⟨1, 3/2, 3/2, 1⟩ ⟨0, 0, 1/2, 1/2⟩ ⟨5, 6, -1, 1⟩ = some false ∧
+    intersects (6283185307 / 1000000000) (3141592653 / 1000000000) (15707963 / 10000000) 20
+      ⟨1, 3/2, 3/2, 1⟩ ⟨0, 0, 1/2, 1/2⟩ ⟨7, 8, -1, 1⟩ = some true := by decide +kernel
+
+/-- a 10 × 6 map in 4 × 4 chunks: pixel (9, 5) lies in chunk 5, whose rectangle is (8, 4, 2, 2) -/
+example : chunkOf 10 4 4 9 5 = 5 ∧ Gen.Filter.chunk_spec 10 6 4 4 5 = (8, 4, 2, 2) ∧ Gen.Filter.n_chunks 10 6 4 4 = 6 := by decide
+
 end C07
